@@ -19,18 +19,17 @@ pub const MAC: u8 = 1;
 
 pub static mut SIGMODE: u8 = MAC;
 
-// ---- ghost state of the ORACLE verifier ----
+// ---- ghost state of the ORACLE verifier (what it was asked, on the LAST call) ----
 pub static mut V_CALLS: u32 = 0;
 pub static mut V_RET: bool = false;
 pub static mut V_PUB: u8 = 0;
-pub static mut V_SIG: [u8; 8] = [0; 8];
+pub static mut V_SIG: [u8; 4] = [0; 4];
 pub static mut V_SIG_LEN: usize = 0;
 pub static mut V_MSG_LEN: usize = 0;
-/// the message the harness expects the verifier to be asked about
-pub static mut EXP_MSG: [u8; 64] = [0; 64];
-pub static mut EXP_MSG_LEN: usize = 0;
-/// set by the verifier: was the message exactly EXP_MSG[..EXP_MSG_LEN] on every call?
-pub static mut V_MSG_OK: bool = true;
+/// sampled bytes of the message: msg[0], msg[1], msg[n-1] (few reads on purpose, see `mac4`)
+pub static mut V_MSG_0: u8 = 0;
+pub static mut V_MSG_1: u8 = 0;
+pub static mut V_MSG_LAST: u8 = 0;
 // ---- ghost state of the signer ----
 pub static mut S_CALLS: u32 = 0;
 
@@ -189,13 +188,16 @@ impl EnrPublicKey for MPub {
                 V_CALLS += 1;
                 V_PUB = self.0;
                 V_SIG_LEN = sig.len();
-                let n = if sig.len() < 8 { sig.len() } else { 8 };
-                rep8!(|i: usize| if i < n {
-                    V_SIG[i] = sig[i];
-                });
-                V_MSG_LEN = msg.len();
-                let same = msg.len() == EXP_MSG_LEN && EXP_MSG_LEN <= 64 && msg == &EXP_MSG[..EXP_MSG_LEN];
-                V_MSG_OK = V_MSG_OK && same;
+                if sig.len() == 4 {
+                    V_SIG = [sig[0], sig[1], sig[2], sig[3]];
+                }
+                let n = msg.len();
+                V_MSG_LEN = n;
+                if n >= 2 {
+                    V_MSG_0 = msg[0];
+                    V_MSG_1 = msg[1];
+                    V_MSG_LAST = msg[n - 1];
+                }
                 return V_RET;
             }
         }
